@@ -821,6 +821,38 @@ class Interp:
         lo, hi = st.range(v.aff)
         bs = []
         sg = v.aff.single()
+        if (sg is None or sg[1] != 1) and v.aff.t and lo >= 0 and hi < (1 << width):
+            # positional arithmetic: c0 + sum 2^k_i * s_i with the fields [k_i, k_i + width(s_i)) disjoint - the bits
+            # of the value are the bits of the s_i side by side (no carries)
+            out = [0] * width
+            used = [False] * width
+            ok = v.aff.c >= 0
+            for sy, co in v.aff.t:
+                if co <= 0 or co & (co - 1):
+                    ok = False
+                    break
+                k = co.bit_length() - 1
+                slo, shi = st.lo_hi(sy)
+                if slo < 0 or shi >= (1 << width):
+                    ok = False
+                    break
+                wi = max(shi.bit_length(), 1)
+                if k + wi > width or any(used[k:k + wi]):
+                    ok = False
+                    break
+                sub = self.bits_of(st, IntV(Aff.sym(sy), (wi, False)), wi)
+                for j in range(wi):
+                    used[k + j] = True
+                    out[k + j] = sub[j]
+            if ok and v.aff.c:
+                for i in range(width):
+                    if (v.aff.c >> i) & 1:
+                        if used[i]:
+                            ok = False
+                            break
+                        out[i] = 1
+            if ok:
+                return tuple(out)
         if (sg is None or sg[1] != 1 or sg[2] != 0) and lo >= 0 and hi < (1 << width) and lo < hi and len(v.aff.t) <= 3:
             # name the value so that its bits can be tracked: z == aff
             z = self.pure_int(st, ("alias", v.aff), "v", (width, False), lo, hi, ("alias", v.aff))
@@ -905,6 +937,13 @@ class Interp:
                 return IntV(e, it)
             self.note("wrap", site, False, "%s may wrap: %r" % (op, e))
             return self.fresh_int(st, "wrap", it)
+        if base in ("Div", "Rem") and not it[1] and b.aff.is_const() and b.aff.c > 1 and b.aff.c & (b.aff.c - 1) == 0 \
+                and not a.aff.is_const() and st.range(a.aff)[0] >= 0 and op in ("Div", "Rem"):
+            # unsigned division / remainder by a power of two: the same as a shift / a mask
+            k = b.aff.c.bit_length() - 1
+            if base == "Div":
+                return self.binop(ctx, st, "Shr", a, IntV(Aff.const(k), (32, False)), ty_a, site)
+            return self.binop(ctx, st, "BitAnd", a, IntV(Aff.const(b.aff.c - 1), it), ty_a, site)
         if base in ("Div", "Rem"):
             bl, bh = st.range(b.aff)
             al, ah = st.range(a.aff)
